@@ -167,6 +167,10 @@ func (r *UnifiedMemoryModelRegistry) unifyModelsAsync(ctx context.Context, endpo
 		}
 	}
 
+	// A fresh listing replaces everything this endpoint contributed before: take the
+	// endpoint out of every catalogue entry first, the merge below re-adds what it still lists
+	r.dropEndpointFromCatalogue(endpointURL)
+
 	// Unify all models for this endpoint
 	unifiedModels, err := r.unifier.UnifyModels(ctx, models, endpoint)
 	if err != nil {
@@ -216,6 +220,53 @@ func (r *UnifiedMemoryModelRegistry) unifyModelsAsync(ctx context.Context, endpo
 	}
 
 	// r.logger.InfoWithEndpoint(" ", endpointUrl, "models", len(unifiedModels))
+}
+
+// dropEndpointFromCatalogue removes endpointURL from every unified catalogue entry.
+// Entries are replaced by copies rather than edited in place (the pointer may be shared
+// with the unifier's store); entries left without a source endpoint are deleted.
+// Callers must hold unificationMutex.
+func (r *UnifiedMemoryModelRegistry) dropEndpointFromCatalogue(endpointURL string) {
+	r.globalUnified.Range(func(id string, model *domain.UnifiedModel) bool {
+		if model.GetEndpointByURL(endpointURL) == nil {
+			return true
+		}
+
+		updated := *model
+		updated.SourceEndpoints = make([]domain.SourceEndpoint, 0, len(model.SourceEndpoints))
+		for _, source := range model.SourceEndpoints {
+			if source.EndpointURL != endpointURL {
+				updated.SourceEndpoints = append(updated.SourceEndpoints, source)
+			}
+		}
+
+		names := []string{id}
+		for _, source := range model.SourceEndpoints {
+			names = append(names, source.NativeName)
+		}
+		for _, alias := range model.Aliases {
+			names = append(names, alias.Name)
+		}
+
+		if len(updated.SourceEndpoints) == 0 {
+			r.globalUnified.Delete(id)
+			for _, name := range names {
+				r.modelEndpointSets.Delete(name)
+			}
+			return true
+		}
+
+		updated.DiskSize = updated.GetTotalDiskSize()
+		r.globalUnified.Store(id, &updated)
+		endpointURLs := make([]string, 0, len(updated.SourceEndpoints))
+		for _, source := range updated.SourceEndpoints {
+			endpointURLs = append(endpointURLs, source.EndpointURL)
+		}
+		for _, name := range names {
+			r.updateEndpointSet(name, endpointURLs)
+		}
+		return true
+	})
 }
 
 // updateEndpointSet updates the cached endpoint set for a given model
@@ -346,6 +397,16 @@ func (r *UnifiedMemoryModelRegistry) RemoveEndpoint(ctx context.Context, endpoin
 	// Clean up unified models
 	r.unificationMutex.Lock()
 	defer r.unificationMutex.Unlock()
+
+	// The unifier keeps its own per-endpoint bookkeeping: an empty listing tells it the
+	// endpoint is gone, otherwise a later merge would bring the removed endpoint back
+	endpoint, exists := r.endpoints.Load(endpointURL)
+	if !exists {
+		endpoint = &domain.Endpoint{URLString: endpointURL, Name: endpointURL}
+	}
+	if _, err := r.unifier.UnifyModels(ctx, nil, endpoint); err != nil {
+		r.logger.ErrorWithEndpoint(endpoint.Name, "Failed to clear unified models of removed endpoint", err)
+	}
 
 	// Remove endpoint from all unified models
 	r.globalUnified.Range(func(id string, model *domain.UnifiedModel) bool {
